@@ -152,6 +152,44 @@ func GenRows(t *rapid.T, minRows, maxRows, maxL, tier int) ([]string, int) {
 			}
 		}
 	}
+	// letter case: the counters and the site selection read residues case-insensitively ("It takes the
+	// upper case of the given uint8"); lower-case (soft-masked) stretches, whole lower-case rows or
+	// alignments and cell-wise mixed case must not change any distance
+	lower := func(b []byte, from, to int) {
+		for j := from; j < to; j++ {
+			if b[j] >= 'A' && b[j] <= 'Z' {
+				b[j] += 32
+			}
+		}
+	}
+	switch rapid.IntRange(0, 9).Draw(t, "case") {
+	case 0: // everything lower case
+		for i := range out {
+			lower(out[i], 0, l)
+		}
+	case 1, 2: // soft-masked stretches in some rows
+		for i := range out {
+			if rapid.Bool().Draw(t, "masked-row") {
+				s := rapid.IntRange(0, l-1).Draw(t, "maskstart")
+				lower(out[i], s, minInt(l, s+rapid.IntRange(1, maxInt(1, l/2)).Draw(t, "masklen")))
+			}
+		}
+	case 3: // a soft-masked block of columns over all rows, and a lower-case row
+		s := rapid.IntRange(0, l-1).Draw(t, "maskstart")
+		e := minInt(l, s+rapid.IntRange(1, maxInt(1, l/2)).Draw(t, "masklen"))
+		for i := range out {
+			lower(out[i], s, e)
+		}
+		lower(out[rapid.IntRange(0, n-1).Draw(t, "lowerrow")], 0, l)
+	case 4: // cell-wise mixed case
+		for i := range out {
+			for j := range out[i] {
+				if rapid.Bool().Draw(t, "lc") {
+					lower(out[i], j, j+1)
+				}
+			}
+		}
+	}
 	res := make([]string, n)
 	for i := range out {
 		res[i] = string(out[i])
@@ -223,13 +261,24 @@ func GenOptions(t *rapid.T, n, l int, allowRanges, allowWeights bool) Options {
 
 // Describe classifies the rows for the evidence histogram
 func Describe(rows []string) (hasGap, hasAmb bool) {
+	// (case-insensitive)
 	for _, r := range rows {
 		if strings.ContainsRune(r, '-') {
 			hasGap = true
 		}
-		if strings.ContainsAny(r, iupacOnly) {
+		if strings.ContainsAny(strings.ToUpper(r), iupacOnly) {
 			hasAmb = true
 		}
 	}
 	return
+}
+
+// HasLower tells whether a row holds a lower-case residue
+func HasLower(rows []string) bool {
+	for _, r := range rows {
+		if strings.ToUpper(r) != r {
+			return true
+		}
+	}
+	return false
 }
